@@ -2,6 +2,7 @@
 package fam
 
 import (
+	"context"
 	"strconv"
 	"strings"
 
@@ -179,6 +180,7 @@ func init() {
 		lv := levels(m["levels"])
 		unknown := atoi(m["unknown"], 1) != 0
 		lastOnly := atoi(m["latewrites"], 0) == 0 // latewrites=1: late writes at every position
+		noLateWrites := atoi(m["nolatewrites"], 0) != 0
 		keys := keyNames[:1]
 		f := &seq.Family{Opt: seq.Options{Slots: slots, ObsKeys: append(append([]string{}, keys...), neverKey), Spec: spec(), LateObs: true}}
 		f.Opt.Epilogue = func(r *seq.Runner) *seq.Mismatch {
@@ -205,7 +207,7 @@ func init() {
 					seq.Op{Kind: seq.GetOp, Actor: a, Key: k},
 					seq.Op{Kind: seq.GetReaderOp, Actor: a, Key: k},
 					seq.Op{Kind: seq.GetKeysOp, Actor: a})
-				if left == 1 || !lastOnly {
+				if (left == 1 || !lastOnly) && !noLateWrites {
 					// late writes are known to succeed (D5, known finding) and end the history there: as the
 					// last operation they do not hide what follows
 					out = append(out,
@@ -283,4 +285,24 @@ func init() {
 		}
 		return f
 	})
+}
+
+// gRPC variants of the families: same alphabets, the client is external.Open against a real server.
+func grpcVariant(name string, gopen func(dbh.Spec) (*dbh.Inst, error), unknownCtx func(context.Context, string) context.Context) {
+	seq.Register("grpc-"+name, func(p string) *seq.Family {
+		f := seq.Lookup(name, p)
+		nf := *f
+		nf.Opt.OpenFn = gopen
+		nf.Opt.UnknownCtx = unknownCtx
+		nf.Opt.Free = true
+		nf.Opt.Epilogue = nil
+		return &nf
+	})
+}
+
+// RegisterGRPC is called by the gRPC tier with its opener (avoids an import cycle).
+func RegisterGRPC(gopen func(dbh.Spec) (*dbh.Inst, error), unknownCtx func(context.Context, string) context.Context) {
+	for _, n := range []string{"kv", "kv-len", "iso", "late"} {
+		grpcVariant(n, gopen, unknownCtx)
+	}
 }
